@@ -174,6 +174,8 @@ class ndarray(object):
         return a, [v] * len(a), self.shape, k
 
     def _arith(self, other, fn, reverse=False, force=None):
+        if other is masked:
+            return _all_masked_like(self)
         a, b, shape, kb = self._operands(other)
         ka = self.kind
         if ka == 'b':
@@ -409,24 +411,44 @@ def _cast(v, frm, to):
 
 
 class _MaskedConstant(object):
+    """numpy.ma.masked: arithmetic with numbers or with itself stays masked; with an array it yields an
+    all-masked array (handled by the array operators)"""
     __masked_constant__ = True
+    __array_priority__ = 20
 
     def __repr__(self):
         return "masked"
 
-    def _no(self, *a, **k):
-        raise Outside("arithmetic on the numpy.ma.masked constant (all cells masked)")
-    __add__ = __radd__ = __sub__ = __rsub__ = __mul__ = __rmul__ = __truediv__ = __rtruediv__ = _no
-    __lt__ = __le__ = __gt__ = __ge__ = _no
-    __float__ = _no
+    def _op(self, o=None):
+        if isinstance(o, ndarray):
+            return _all_masked_like(o)
+        return self
+    __add__ = __radd__ = __sub__ = __rsub__ = __mul__ = __rmul__ = __truediv__ = __rtruediv__ = _op
+    __lt__ = __le__ = __gt__ = __ge__ = _op
+    __neg__ = __abs__ = lambda self: self
+
+    def __float__(self):
+        raise Outside("float() of the numpy.ma.masked constant (nan)")
 
     def __eq__(self, o):
-        self._no()
+        return self._op(o)
 
-    __hash__ = object.__hash__
+    def __ne__(self, o):
+        return self._op(o)
+
+    __hash__ = None
 
     def __bool__(self):
         return False
+
+    def filled(self, v=0):
+        return v
+
+
+def _all_masked_like(a):
+    d = a.data if isinstance(a, MaskedArray) else a
+    k = d.kind if d.kind != 'b' else 'i'
+    return MaskedArray(ndarray._new(d.cells(), d.shape, k), ndarray._new([_T()] * d.size, d.shape, 'b'))
 
 
 masked = _MaskedConstant()
@@ -538,6 +560,8 @@ class MaskedArray(ndarray):
         return ndarray._new([_simp(z3.Or(x, y)) for x, y in zip(a, b)], shape, 'b')
 
     def _binop(self, other, fn, reverse=False):
+        if other is masked:
+            return _all_masked_like(self)
         od = other.data if isinstance(other, MaskedArray) else other
         r = ndarray._arith(self.data, od, fn, reverse)
         m = self._mask_or(other, r.shape)
@@ -562,6 +586,8 @@ class MaskedArray(ndarray):
 
     def _div(self, num, den):
         """masked true division num/den (either may be scalar/ndarray/MaskedArray) -> MaskedArray"""
+        if num is masked or den is masked:
+            return _all_masked_like(self)
         base = num if isinstance(num, ndarray) else den
         a, b, shape, _ = ndarray._operands(num.data if isinstance(num, ndarray) else _full_like(base, num),
                                            den.data if isinstance(den, ndarray) else den)
@@ -613,6 +639,9 @@ class MaskedArray(ndarray):
         return self
 
     def _compare(self, o, fn):
+        if o is masked:
+            r0 = _all_masked_like(self)
+            return MaskedArray(ndarray._new([_F()] * self.size, self.shape, 'b'), r0._mask, True)
         od = o.data if isinstance(o, MaskedArray) else o
         r = ndarray._compare(self.data, od, fn)
         m = self._mask_or(o, r.shape)
@@ -818,16 +847,19 @@ def vstack(arrs):
     return ndarray._new(cells, (_b.sum(p.shape[0] for p in parts),) + parts[0].shape[1:], kk)
 
 
-def stack(arrs, axis=0):
+def stack(arrs, axis=0, out=None):
     parts = [a.data if isinstance(a, MaskedArray) else a for a in arrs]
-    if axis != 0:
-        raise Inconclusive("stack axis != 0 not modelled")
     for p in parts[1:]:
         if p.shape != parts[0].shape:
             raise ValueError("all input arrays must have the same shape")
     kk = 'f' if _b.any(p.kind == 'f' for p in parts) else parts[0].kind
-    cells = [_cast(v, p.kind, kk) for p in parts for v in p.cells()]
-    return ndarray._new(cells, (len(parts),) + parts[0].shape, kk)
+    cells, idxs, off = [], [], 0
+    for p in parts:
+        c = [_cast(v, p.kind, kk) for v in p.cells()]
+        idxs.append(_np.arange(off, off + len(c)).reshape(p.shape))
+        cells += c
+        off += len(c)
+    return ndarray(cells, _np.stack(idxs, axis=axis), kk)
 
 
 def _boolop(f):
@@ -1039,7 +1071,7 @@ ma.maximum = _ma_extreme(operator.gt)
 ma.mean = _ma_mean
 ma.std = _ma_std
 ma.getmask = lambda a: a.mask if isinstance(a, MaskedArray) else NOMASK
-ma.getmaskarray = lambda a: (ndarray._new(a.maskcells(), a.shape, 'b') if isinstance(a, MaskedArray) else ndarray._new([_F()] * a.size, a.shape, 'b'))
+ma.getmaskarray = lambda a: ((a._mask if a._mask is not None else ndarray._new([_F()] * a.size, a.shape, 'b')) if isinstance(a, MaskedArray) else ndarray._new([_F()] * a.size, a.shape, 'b'))
 ma.getdata = lambda a: a.data if isinstance(a, ndarray) else a
 
 
